@@ -274,7 +274,7 @@ fn payload_spec(ueh: bool, large: bool) -> BoxedStrategy<(u8, PayloadSpec)> {
 }
 
 /// Finish a message: enforce the 16-bit budget by construction, apply the fill knob, set NOAR and LEN.
-fn finish(mut m: RMsg, fill: Option<u32>) -> RMsg {
+pub fn finish(mut m: RMsg, fill: Option<u32>) -> RMsg {
     let hdr = headers_len(m.htyp);
     let budget = 65535 - hdr;
     // budget: drop / shorten trailing elements until the payload fits
